@@ -114,6 +114,7 @@ pub fn hist_spec(id: &str, tier: &str) -> Option<(HistSpec, Info)> {
         weights,
         types,
         max_uni: 14,
+        min_uni: 2,
         min_ops: 0,
         max_ops: b.2,
         cases: b.0,
@@ -382,13 +383,17 @@ pub fn parts(id: &str, tier: &str) -> Option<(Vec<Part>, Info)> {
                     "C01" => "C01big", "C02" => "C02big", "C03" => "C03big", "C04" => "C04big", "C09" => "C09big",
                     "C10" => "C10big", "C15" => "C15big", "C16" => "C16big", "C18" => "C18big", _ => "C20big",
                 };
-                big.max_uni = 56;
-                big.min_ops = 60;
-                big.max_ops = if tier == "thorough" { 400 } else { 160 };
+                big.max_uni = 72;
+                big.min_uni = 40;
+                big.min_ops = 80;
+                big.max_ops = if tier == "thorough" { 400 } else { 200 };
                 big.cases = if tier == "thorough" { 120 } else { 60 };
                 big.shards = if tier == "thorough" { 16 } else { 4 };
                 big.full_queries = false;
-                big.weights.insert += 25;
+                big.weights.insert = 160;
+                big.weights.entry += 10;
+                big.weights.remove_children = big.weights.remove_children.min(1);
+                big.weights.retain = big.weights.retain.min(1);
                 big.weights.clear = 0;
                 big.weights.from_iter = 0;
                 big.weights.b_share = big.weights.b_share.min(10);
